@@ -140,6 +140,7 @@ def run(rep):
                 return isprev if other_is_prev else (not isprev and not cq.same_expr(y, V))
         return False
     nbad, ncomb = [], 0
+    nund = []
     for P1, P2, P3, P4 in itertools.product([True, False], repeat=4):
         ncomb += 1
 
@@ -187,7 +188,7 @@ def run(rep):
             continue
         fins = [f_ for f_ in ce.finals if f_[2] in ("end", "ContinueStmt")]
         if len(fins) != 1 or fins[0][1]:
-            nbad.append(f"{P1, P2, P3, P4}: undecided test {show(fins[0][1][0][0])[:80] if fins and fins[0][1] else len(fins)}")
+            nund.append(f"{P1, P2, P3, P4}: undecided test {show(fins[0][1][0][0])[:80] if fins and fins[0][1] else len(fins)}")
             continue
         fenv = fins[0][0]
         S, E, N, R = (('sym', x) for x in ("S0", "E0", "N0", "R0"))
@@ -208,8 +209,13 @@ def run(rep):
         if not same:
             nbad.append(f"first-ensemble={P1}, new-value={P2}, last-of-block={P3}, block-open={P4}: "
                         f"start={show(fenv.get('start', S))}, end={show(fenv.get('end', E))}, nties={show(fenv.get('nties', N))}, sumrank={show(fenv.get('sumrank', R))[:60]}")
-    rep.check(not nbad, "R10.b", file, "c_ensrank", f"tie-block scan equals the mid-rank reference for all {ncomb} predicate assignments (tests compare |value - neighbour| with eps; the previous value is carried)",
-              " | ".join(nbad[:3]), line=scan.get("_line"))
+    if nund and not nbad:
+        # a test the oracle cannot decide is "not understood", never a wrong rank
+        rep.undecided("R10.b", file, "c_ensrank", f"tie-block scan equals the mid-rank reference for all {ncomb} predicate assignments (tests compare |value - neighbour| with eps; the previous value is carried)",
+                      " | ".join(nund[:3]), line=scan.get("_line"))
+    else:
+        rep.check(not nbad, "R10.b", file, "c_ensrank", f"tie-block scan equals the mid-rank reference for all {ncomb} predicate assignments (tests compare |value - neighbour| with eps; the previous value is carried)",
+                  " | ".join(nbad[:3]), line=scan.get("_line"))
     # state before the scan
     ice = cq.evaluate(cq.preceding(post_sort, scan))
     ienv = ice.finals[-1][0] if ice.finals else {}
